@@ -327,7 +327,10 @@ func extraTuples(method string) []argTuple {
 		return []argTuple{mk(`"AND","m"`, "AND", "m"), mk(`"or","m"`, "or", "m"), mk(`"NOT","m"`, "NOT", "m"), mk(`"LIST","m","n"`, "LIST", "m", "n"), mk(`"BASIC",1`, "BASIC", 1),
 			mk(`"CONDITION","k",Eq,"v"`, "CONDITION", "k", stackage.Eq, "v"), mk(`["AND","x"]`, []any{"AND", "x"}), mk(`["OR",["AND","y"]]`, []any{"OR", []any{"AND", "y"}}), mk(`"junk","m"`, "junk", "m")}
 	case "Traverse":
-		return []argTuple{mk("1, 1", 1, 1), mk("0, 0", 0, 0), mk("1, 0, 0", 1, 0, 0), mk("2, -1", 2, -1), mk("3, 1", 3, 1), mk("4, 0", 4, 0), mk("5, 1", 5, 1), mk("6, 0", 6, 0)}
+		return []argTuple{mk("1, 1", 1, 1), mk("0, 0", 0, 0), mk("1, 0, 0", 1, 0, 0), mk("2, -1", 2, -1), mk("3, 1", 3, 1), mk("4, 0", 4, 0), mk("5, 1", 5, 1), mk("6, 0", 6, 0),
+			// long paths (deep structures)
+			mk("0, 0, 0, 0", 0, 0, 0, 0), mk("0, 0, 0, 1", 0, 0, 0, 1), mk("0, 0, 0, 0, 0", 0, 0, 0, 0, 0), mk("0, 0, 0, 0, 1", 0, 0, 0, 0, 1), mk("1, 0, 0, 0, 0", 1, 0, 0, 0, 0),
+			mk("0 x7", 0, 0, 0, 0, 0, 0, 0), mk("0 x6, 1", 0, 0, 0, 0, 0, 0, 1), mk("0 x17", 0, 0, 0, 0, 0, 0, 0, 0, 0, 0, 0, 0, 0, 0, 0, 0, 0), mk("0 x16, 1", 0, 0, 0, 0, 0, 0, 0, 0, 0, 0, 0, 0, 0, 0, 0, 0, 1)}
 	}
 	return nil
 }
